@@ -92,8 +92,17 @@ def name_rules(rep, prog, cfg):
     list_words_rule(rep, prog, cfg, V)
 
 
-def list_words_rule(rep, prog, cfg, V):
-    rule = "C07.list-words"
+def build_validator(prog):
+    """The function whose Result decides Ok/Err of Command::build (None when the anchor or the idiom is not found)."""
+    build = body_by_name(prog, M + "Command::build")
+    if len(build) != 1:
+        return None
+    vcalls = [(bb, t) for bb, t in build[0].calls() if callee(t) and callee(t)["def"] in prog.bodies and
+              "Result<()" in prog.bodies[callee(t)["def"]].local_ty(0).replace(" ", "")]
+    return prog.bodies[callee(vcalls[0][1])["def"]] if len(vcalls) == 1 else None
+
+
+def list_words_rule(rep, prog, cfg, V, rule="C07.list-words"):
     cg = callgraph(prog)
     rejected = set()
     how = []
